@@ -1,6 +1,7 @@
 import Comdex.Lemmas.LiqOrders
 import Comdex.Lemmas.LiqAmmBridge
 import Comdex.Lemmas.LiqMoves
+import Comdex.Lemmas.LiqFarm
 import Comdex.Props.C05
 /-!
 # C04 — Liquidity custody: escrows, reserves and farmed pool coins are fully backed
@@ -31,6 +32,13 @@ Property clause → theorem
         (swap-fee collector and orderers: `C07.finish_moves_exactly`, `C07.fill_pays_demand_coins`)
 * "the liquidity module account holds exactly the pool coins recorded as farmed (queued plus active) for every pool"
       → `farm_custody_exact`
+      (holds for EVERY pool of every history, enabled or disabled — farm / unfarm do not look at the flag, the code never
+       deletes a pool), with the farming mechanics behind it: `unfarm_newest_first` (the unfarm loop = take from the newest
+       queue entries, the active position only gives what the queue cannot cover), `maturation_exact` and
+       `no_mature_entry_after_batch` (ProcessQueuedFarmers moves exactly the entries older than the queue duration)
+* request lifecycle: a pending request stays backed over any number of batches (`escrow_eq_requests`), and if its pool is
+  disabled when it is finally executed it is refunded in full → `deposit_refunded_if_pool_disabled`,
+  `withdraw_refunded_if_pool_disabled`
 * "every pool whose pool-coin supply has reached zero is marked disabled" → `zero_supply_disabled`
 * "pool-coin supply changes only by pool creation and by deposits and withdrawals executed against that pool"
       → `poolcoin_supply_only_by_pool_ops`
@@ -168,6 +176,51 @@ theorem farm_custody_exact {cfg : Cfg} (hc : CfgOk cfg) (funds : List (Nat × Na
     (after cfg funds ops).bal .module (.pool a p) = farmSum a p (after cfg funds ops).farmers :=
   (reachable_inv hc funds ops).farm a p
 
+/-- **`MsgUnfarm` takes from the newest queue entries first** (reachable states): the farmer's queue becomes the old queue
+with `amt` consumed from its newest end, the active position is reduced only by `amt − Σ queue`, the farmer receives `amt`
+pool coins from the module account. -/
+theorem unfarm_newest_first {cfg : Cfg} (hc : CfgOk cfg) (funds : List (Nat × Nat × Nat)) (ops : List Op)
+    {app user pool amt : Nat} {ext : Bool} {f : Farmer} {s' : State}
+    (hf : findBy (isFarmer app pool user) (after cfg funds ops).farmers = some f)
+    (h : step cfg (after cfg funds ops) (.unfarm app user pool amt ext) = some s') :
+    findBy (isFarmer app pool user) s'.farmers =
+      some { f with queued := (takeNewest f.queued.reverse amt).reverse, active := f.active - (amt - qTotal f.queued) } ∧
+    s'.bal (.user user) (.pool app pool) = (after cfg funds ops).bal (.user user) (.pool app pool) + amt ∧
+    s'.bal .module (.pool app pool) + amt = (after cfg funds ops).bal .module (.pool app pool) :=
+  unfarm_effect (reachable_inv hc funds ops) hf h
+
+/-- **Maturation moves exactly the mature entries** (`ProcessQueuedFarmers`, per farmer): what stays queued is younger
+than the queue duration, the active position grows by exactly the mature entries, the farmer's total is unchanged. -/
+theorem maturation_exact (dur now : Int) (f : Farmer) :
+    (∀ q ∈ (activate dur now f).queued, now < q.2 + dur ∧ q ∈ f.queued) ∧
+    (activate dur now f).active = f.active + qTotal (f.queued.filter fun q => !decide (now < q.2 + dur)) ∧
+    qTotal (activate dur now f).queued + (activate dur now f).active = qTotal f.queued + f.active :=
+  activate_spec dur now f
+
+/-- after an app's batch no queue entry of that app is mature -/
+theorem no_mature_entry_after_batch (cfg : Cfg) (s : State) (a : Nat) :
+    ∀ f ∈ (processQueued cfg s a).farmers, f.app = a → ∀ q ∈ f.queued, s.now < q.2 + cfg.queueDur :=
+  processQueued_none_mature cfg s a
+
+/-- **A deposit request executed against a disabled pool is refunded in full** (any state, any batch later). -/
+theorem deposit_refunded_if_pool_disabled {s s' : State} {a pl i ax ay pc : Nat} {r : DepReq} {q : Pool}
+    (hr : findBy (isDep a pl i) s.deps = some r) (hp : r.status = .pending)
+    (hq : s.pool? a pl = some q) (hd : q.disabled = true) (hne : r.qd ≠ r.bd)
+    (h : execDeposit s a pl i ax ay pc = some s') :
+    s'.bal (.user r.owner) r.qd = s.bal (.user r.owner) r.qd + r.dx ∧
+    s'.bal (.user r.owner) r.bd = s.bal (.user r.owner) r.bd + r.dy ∧
+    (findBy (isDep a pl i) s'.deps).map (·.status) = some .failed ∧ s'.pools = s.pools :=
+  execDeposit_disabled_refunds hr hp hq hd hne h
+
+/-- **A withdrawal request executed against a disabled pool gets its pool coins back.** -/
+theorem withdraw_refunded_if_pool_disabled {s s' : State} {a pl i x y : Nat} {r : WdrReq} {q : Pool}
+    (hr : findBy (isWdr a pl i) s.wdrs = some r) (hp : r.status = .pending)
+    (hq : s.pool? a pl = some q) (hd : q.disabled = true)
+    (h : execWithdraw s a pl i x y = some s') :
+    s'.bal (.user r.owner) (.pool a pl) = s.bal (.user r.owner) (.pool a pl) + r.pc ∧
+    (findBy (isWdr a pl i) s'.wdrs).map (·.status) = some .failed ∧ s'.pools = s.pools :=
+  execWithdraw_disabled_refunds hr hp hq hd h
+
 /-- **Zero supply ⇒ disabled.** -/
 theorem zero_supply_disabled {cfg : Cfg} (hc : CfgOk cfg) (funds : List (Nat × Nat × Nat)) (ops : List Op) :
     ∀ q ∈ (after cfg funds ops).pools, q.ps = 0 → q.disabled = true :=
@@ -248,6 +301,12 @@ example : ((after cfg1 funds1 opsOK).orders.map fun o => (o.id, o.remaining, o.s
 example : (after cfg1 funds1 opsOK).bal (.pairEscrow 1 1) (.coin 1) = 5045 := by decide
 example : remSum 1 1 (.coin 1) (after cfg1 funds1 opsOK).orders = 5000 := by decide
 example : touchesSupply 1 1 (.createPool 1 0 1 false 5 5 5 true) := rfl
+/-- queue of three ages (oldest first) 50@t1, 30@t2, 20@t3: unfarming 35 takes 20 from the newest and 15 from the middle -/
+example : keepNonzero (deduct [(50, 1), (30, 2), (20, 3)] 35).1 = [(50, 1), (15, 2)] ∧ (deduct [(50, 1), (30, 2), (20, 3)] 35).2 = 0 ∧
+    (deduct [(50, 1), (30, 2), (20, 3)] 130).2 = 30 := by decide
+/-- maturation at time 100 with duration 60: entries created at 10 and 40 are mature, the one at 70 is not -/
+example : activate 60 100 { app := 1, pool := 1, owner := 0, queued := [(5, 10), (7, 40), (9, 70)], active := 2 } =
+    { app := 1, pool := 1, owner := 0, queued := [(9, 70)], active := 14 } := by decide
 example : coinTotal 1 (after cfg1 funds1 opsOK).bank = 2000000 ∧ coinTotal 1 (genesis funds1).bank = 2000000 := by decide
 
 end Comdex.C04
